@@ -29,6 +29,8 @@ def check(tier, seed):
                   not mine, "%d differ; first %s" % (len(mine), mine[0][:300] if mine else ""))
     for d in mine[:1]:
         problems.append(("walker", {"kind": "walker", "mode": "acl", "seed": seed, "cases": cases, "only": d.split()[1], "line": d}, d[:400]))
+    from .c12 import path_check
+    path_check(ck, ("PATHACL",), "for request types, a forbidden name at that position is refused")
     # (b) end to end: after translation, independent of the bypass header, list filter
     ok, log, exe = V.ocaml_build("policy_driver", "ExtractPolicy.v", "policy_model.ml", "policy_driver.ml")
     ck.obligation("extraction + driver build", ok, log[-1500:])
@@ -45,6 +47,17 @@ def check(tier, seed):
         ("CALL side=remote method=%s ns=other" % IMP, "code=7 reached=0", "Q admin ImportWorkflowExecution 0 other", "Q 0"),
         ("CALL side=remote method=%s ns=rem" % IMP, "code=0 reached=1 seen=loc", "Q admin ImportWorkflowExecution 0 loc", "Q 1"),
         ("CALL side=remote method=%s" % LST, "resp=list:rem,loc2,rem", "F loc,other,loc2,zzz,loc", "F loc,loc2,loc"),
+    ]
+    # the list filter on every arrangement of allowed (loc, loc2) and disallowed names up to length 4, incl. runs of disallowed ones
+    import itertools
+    for n in range(0, 5):
+        for arr in itertools.product(["loc", "x", "loc2", "y"], repeat=n):
+            if n == 4 and arr[0] in ("loc2", "y"):
+                continue   # symmetric to the arrangements starting with loc / x
+            up = ",".join(arr) or "-"
+            want = ",".join(("rem" if a == "loc" else a) for a in arr if a in ("loc", "loc2"))
+            script.append(("CALL side=remote method=%s list=%s" % (LST, up), "resp=list:%s " % want if want else "resp=list: ", "F %s" % (",".join(arr) or "-"), "F %s" % (",".join(a for a in arr if a in ("loc", "loc2")) or "-")))
+    script += [
         ("CALL side=local method=%s ns=anything" % D, "code=0 reached=1", "Q other DescribeNamespace 0 anything", "Q 1"),
         ("SETUP transport=tcp acl=present methods=- namespaces=- nsmap=-", "SETUP ok", "P present - -", None),
         ("CALL side=remote method=%s ns=whatever" % D, "code=0 reached=1 seen=whatever", "Q workflow DescribeNamespace 0 whatever", "Q 1"),
